@@ -329,3 +329,42 @@ def check_C20(fx, eng, rep, tier):
     n = _take(rep, sink, ['C20.', 'C17.FREE', 'C04.SCAN', 'C16.SORT', 'C16.MIN'])
     _thread_fns(rep, fx, EPOCH_TUS)
     rep.floor('C20 obligations', n, 15)
+
+
+# ---------------------------------------------------------------------------------- Zipf
+def check_C19(fx, eng, rep, tier):
+    import zipf
+    eng.max_header_visits = 3
+    r, sink = zipf.analyse(fx, eng)
+    rep.explanation = ('Effect rules on all 8 instantiations: operator(), GetCDF and GetHarmonicNum are const, write nothing reachable from this or from globals, cast no const away, '
+                       'call only their own const methods, bounds-checked table reads, <cmath> and a thread_local distribution from a two-entry allow-list of stateless types drawn '
+                       'from the caller\'s engine (PURE.NOMUT / TLS / DEPS); no mutable or non-constant static member; copy/move operations are defaulted over value-semantic members '
+                       '(PURE.CONST, with static_assert witnesses under clang++ and g++); the three-argument constructors throw exactly on the path where max < min and return only '
+                       'where that test failed (CTOR.REJECT). Equality of output sequences follows from these (same inputs, no hidden state) and is not observed.')
+    rep.rule_text = 'C19.CONST / C19.NOMUT / C19.TLS / C19.DEPS / C19.REJECT per instantiation (8)'
+    rep.trusted = ['clang 14 AST/CFG of the instantiated templates', 'clang++ / g++ for the witnesses', 'allow-listed std distributions keep no state between calls']
+    n = _take(rep, sink, ['C19.'])
+    for f in fx.functions.values():
+        if 'Zipf' in f['name']:
+            rep.saw_fn(f)
+    rep.extra['instantiations'] = [c[0] for c in r.classes]
+    rep.floor('C19 obligations', n, 100)
+
+
+def check_C06(fx, eng, rep, tier):
+    import zipf
+    eng.max_header_visits = 3
+    r, sink = zipf.analyse(fx, eng)
+    rep.explanation = ('Necessary conditions of the range clause only (each one, if broken, yields a value outside [min, max] or a non-zero default): Z.PIN (the exact table\'s last '
+                       'entry is stored as the literal 1.0 after every other table write), Z.DENOM (the approximate reader divides H(id+1) by denom_ = H(n_), n_ = max-min+1, so the '
+                       'last bin is x/x), Z.SWITCH (reader threshold, table extent and kExactBinNum agree), Z.ACCESS (bounds-checked table reads), Z.DEFAULT (defaults describe the '
+                       'single bin [0,0] and the single-bin branch stores {1.0}), Z.RANGE (search starts on [0, bins-1], result = min + position). NOT decided: that the binary search '
+                       'returns the inverse-CDF image for every variate (a changed comparison in the search is not detected by this check).')
+    rep.rule_text = 'C06.PIN / C06.DENOM / C06.SWITCH / C06.ACCESS / C06.DEFAULT / C06.RANGE per instantiation (8)'
+    rep.trusted = ['clang 14 AST/CFG of the instantiated templates']
+    rep.assumptions = ['inverse-CDF correctness of the search loop is not decided']
+    n = _take(rep, sink, ['C06.'])
+    for f in fx.functions.values():
+        if 'Zipf' in f['name']:
+            rep.saw_fn(f)
+    rep.floor('C06 obligations', n, 60)
